@@ -846,12 +846,13 @@ async fn handle_frontend_messages<S: TransportSenderT>(
 		// User called `request` on the front-end
 		FrontToBack::Request(request) => {
 			if let Err(send_back) = manager.lock().insert_pending_call(request.id.clone(), request.send_back) {
-				tracing::debug!(target: LOG_TARGET, "Denied duplicate method call");
-
+				// An unsubscribe call (which has no `send_back`) uses the slot that was reserved for it
+				// when the subscription was requested and must still be sent.
 				if let Some(s) = send_back {
+					tracing::debug!(target: LOG_TARGET, "Denied duplicate method call");
 					let _ = s.send(Err(InvalidRequestId::Occupied(request.id.to_string())));
+					return Ok(());
 				}
-				return Ok(());
 			}
 
 			sender.send(request.raw).await?;
